@@ -13,6 +13,16 @@
                                       DESIGN §3 C17 search: <nthreads> threads call CS_Total_CP(<formula>) while one
                                       application thread holds LC_NUMERIC=C.utf8 and keeps asking for it
 
+   c17_threads errshare <nthreads> <epochs> <seed> [serial]
+                                      round `ErrorShare`: "errors are private heap objects owned by the caller's slot".  Per epoch the MAIN thread
+                                      obtains error objects through the public API (failing calls of several families, the constructors) and makes,
+                                      with xrl_error_copy, one copy (and copies of copies) per worker; it also takes copies of built-in crystals
+                                      (Crystal_GetCrystal / Crystal_MakeCopy).  The objects are handed over race-free (a pthread barrier: after it
+                                      every object belongs to exactly one thread); then ALL threads copy / compare / propagate / clear / free THEIR
+                                      objects concurrently.  An error and its copies being independent objects, ThreadSanitizer must stay silent and
+                                      every copy must carry the code and text recorded when the original was made (`E <thread> copies <n> mismatches
+                                      <m>`; with `serial` the threads take turns: the reference output)
+
    c17_threads selfrace               two threads increment one plain int of the HARNESS without synchronisation: tells "ThreadSanitizer is not
                                       live at all" from "the library's objects are not instrumented / the library synchronises now" when the
                                       canary round of the check (two threads inserting into the built-in crystal array) stays silent
@@ -80,6 +90,86 @@ static void *holder_thread(void *a) {
   return NULL;
 }
 
+/* ---- round ErrorShare ----------------------------------------------------------------------------- */
+#define ES_ERR 10
+#define ES_CRY 3
+typedef struct { xrl_error *err[ES_ERR]; Crystal_Struct *cry[ES_CRY]; long copies, mismatches; char first[400]; int id; } es_thread;
+static es_thread ES[MAXT]; static int es_n, es_epochs, es_serial;
+static int es_code[ES_ERR]; static char *es_text[ES_ERR]; static char *es_cry[ES_CRY];     /* what the originals said when they were made: harness memory, read-only later */
+static pthread_barrier_t es_bar;
+static char *es_render(const Crystal_Struct *c) { obuf o = { malloc(1 << 14), 0, 1 << 14 }; o.p[0] = 0; ob_crystal(&o, c); return o.p; }
+static void es_note(es_thread *T, const char *what, int i, const char *exp, const char *got) {
+  if (!T->mismatches++) snprintf(T->first, sizeof T->first, "%s %d expected{%.150s} got{%.150s}", what, i, exp ? exp : "~", got ? got : "~");
+}
+static void es_check_err(es_thread *T, int i, const xrl_error *e, const char *what) {
+  T->copies++;
+  if (!e || (int)e->code != es_code[i] || !e->message || strcmp(e->message, es_text[i])) es_note(T, what, i, es_text[i], e ? e->message : NULL);
+}
+static void es_work(es_thread *T, int rounds) {
+  for (int r = 0; r < rounds; r++) {
+    for (int i = 0; i < ES_ERR; i++) {
+      if (!T->err[i]) continue;
+      xrl_error *c = xrl_error_copy(T->err[i]);
+      es_check_err(T, i, c, "copy");
+      switch ((r + i + T->id) % 4) {
+        case 0: xrl_error_free(c); break;
+        case 1: xrl_error_free(T->err[i]); T->err[i] = c; break;                       /* the copy outlives what it was copied from */
+        case 2: { xrl_error *slot = NULL; xrl_propagate_error(&slot, c); es_check_err(T, i, slot, "propagated");
+                  if (!xrl_error_matches(slot, (xrl_error_code)es_code[i])) es_note(T, "matches", i, es_text[i], "0"); xrl_clear_error(&slot); break; }
+        default: { xrl_error *d = xrl_error_copy(c); xrl_error_free(c); es_check_err(T, i, d, "copy-of-copy"); xrl_error_free(d); }
+      }
+      es_check_err(T, i, T->err[i], "own");
+    }
+    for (int i = 0; i < ES_CRY; i++) {
+      if (!T->cry[i]) continue;
+      Crystal_Struct *c = Crystal_MakeCopy(T->cry[i], NULL); char *now = es_render(c);
+      T->copies++; if (strcmp(now, es_cry[i])) es_note(T, "crystal-copy", i, es_cry[i], now);
+      free(now); (void)Crystal_UnitCellVolume(T->cry[i], NULL);
+      if ((r + i) & 1) Crystal_Free(c); else { Crystal_Free(T->cry[i]); T->cry[i] = c; }
+    }
+  }
+  for (int i = 0; i < ES_ERR; i++) if (T->err[i]) { es_check_err(T, i, T->err[i], "final"); xrl_error_free(T->err[i]); T->err[i] = NULL; }
+  for (int i = 0; i < ES_CRY; i++) if (T->cry[i]) { char *now = es_render(T->cry[i]); if (strcmp(now, es_cry[i])) es_note(T, "crystal-final", i, es_cry[i], now); free(now); Crystal_Free(T->cry[i]); T->cry[i] = NULL; }
+}
+/* the main thread: fresh originals through the public API, one copy per worker */
+static void es_produce(int epoch) {
+  xrl_error *b[ES_ERR]; memset(b, 0, sizeof b); char nm[64];
+  AtomicWeight(-1 - epoch % 3, &b[0]);
+  snprintf(nm, sizeof nm, "NoSuchCrystal%d", epoch); Crystal_Struct *c0 = Crystal_GetCrystal(nm, NULL, &b[1]); Crystal_Free(c0);
+  snprintf(nm, sizeof nm, "%dXx", epoch); { struct radioNuclideData *r = GetRadioNuclideDataByName(nm, &b[2]); if (r) FreeRadioNuclideData(r); }
+  { struct compoundData *cd = CompoundParser(epoch & 1 ? "h2o" : "Fe2O3)", &b[3]); if (cd) FreeCompoundData(cd); }
+  b[4] = xrl_error_new(XRL_ERROR_RUNTIME, "made by hand in epoch %d (%s)", epoch, "ErrorShare");
+  xrl_set_error_literal(&b[5], XRL_ERROR_IO, "a literal message");
+  { struct compoundDataNIST *n = GetCompoundDataNISTByName("Unobtainium", &b[6]); if (n) FreeCompoundDataNIST(n); }
+  LineEnergy(26, epoch & 1 ? 0 : -2000, &b[7]);
+  CS_Total_CP("Xx2O", 10.0, &b[8]);
+  b[9] = xrl_error_new_literal(XRL_ERROR_TYPE, "");
+  for (int i = 0; i < ES_ERR; i++) {
+    free(es_text[i]); es_text[i] = NULL; es_code[i] = -1;
+    if (!b[i]) { for (int t = 0; t < es_n; t++) ES[t].err[i] = NULL; continue; }
+    es_code[i] = (int)b[i]->code; es_text[i] = strdup(b[i]->message ? b[i]->message : "");
+    ES[0].err[i] = b[i];                                                            /* thread 0 keeps the original */
+    for (int t = 1; t < es_n; t++) ES[t].err[i] = xrl_error_copy((i & 1) ? ES[t - 1].err[i] : b[i]);       /* odd i: a chain of copies of copies */
+  }
+  static const char *names[ES_CRY] = { "Si", "AlphaQuartz", "Muscovite" };
+  for (int i = 0; i < ES_CRY; i++) {
+    Crystal_Struct *c = Crystal_GetCrystal(names[(i + epoch) % ES_CRY], NULL, NULL);
+    free(es_cry[i]); es_cry[i] = es_render(c);
+    ES[0].cry[i] = c;
+    for (int t = 1; t < es_n; t++) ES[t].cry[i] = c ? Crystal_MakeCopy((i & 1) ? ES[t - 1].cry[i] : c, NULL) : NULL;
+  }
+}
+static void *es_worker(void *a) {
+  es_thread *T = a;
+  for (int ep = 0; ep < es_epochs; ep++) {
+    if (T->id == 0) es_produce(ep);
+    pthread_barrier_wait(&es_bar);                /* hand-over: from here on every object belongs to one thread */
+    es_work(T, 60);
+    pthread_barrier_wait(&es_bar);                /* everybody is done with the objects of this epoch */
+  }
+  return NULL;
+}
+
 static int selfrace_counter;
 static void *selfrace_thread(void *a) { (void)a; for (int i = 0; i < 20000; i++) selfrace_counter++; return NULL; }
 
@@ -90,6 +180,20 @@ int main(int argc, char **argv) {
   }
   if (argc < 4) { fprintf(stderr, "usage\n"); return 2; }
   setlocale(LC_ALL, "");
+  if (!strcmp(argv[1], "errshare")) {
+    es_n = atoi(argv[2]); es_epochs = atoi(argv[3]); es_serial = argc > 5 && !strcmp(argv[5], "serial");
+    if (es_n < 2) es_n = 2; if (es_n > MAXT) es_n = MAXT;
+    for (int t = 0; t < es_n; t++) ES[t].id = t;
+    if (es_serial) {
+      for (int ep = 0; ep < es_epochs; ep++) { es_produce(ep); for (int t = 0; t < es_n; t++) es_work(&ES[t], 60); }
+    } else {
+      pthread_t th[MAXT]; pthread_barrier_init(&es_bar, NULL, (unsigned)es_n);
+      for (int t = 0; t < es_n; t++) pthread_create(&th[t], NULL, es_worker, &ES[t]);
+      for (int t = 0; t < es_n; t++) pthread_join(th[t], NULL);
+    }
+    for (int t = 0; t < es_n; t++) printf("E %d copies %ld mismatches %ld %s\n", t, ES[t].copies, ES[t].mismatches, ES[t].first);
+    return 0;
+  }
   if (!strcmp(argv[1], "locale")) {
     int n = atoi(argv[2]); iters = atoi(argv[3]); formula = argc > 4 ? argv[4] : "Ca5(PO4)3F";
     if (n > MAXT) n = MAXT;
